@@ -126,7 +126,22 @@ func ruleR15_3(w *World, r *Report) {
 		sts := storesTo(g, "$0.Delimiter")
 		ok := len(sts) == 1 && canonLinear(sts[0].Val).String() == "+$0.Delimiter+1"
 		cp := storesTo(g, "complit.Delimiter")
-		ok = ok && len(cp) == 1 && canonName(cp[0].Val) == "$0.Delimiter" && instrDominates(cp[0], sts[0])
+		if len(cp) == 0 && len(sts) == 1 {
+			// the copy is taken by the type's own Clone(), before the increment
+			viaClone := false
+			for _, c := range callsNamed(g, "Clone") {
+				recv, _ := recvAndArgs(c)
+				if cl := staticCallee(c); cl != nil && recv != nil && canonName(recv) == "$0" && instrDominates(c.(ssa.Instruction), sts[0]) {
+					ccp := storesTo(cl, "complit.Delimiter")
+					if len(ccp) == 1 && canonName(ccp[0].Val) == "$0.Delimiter" {
+						viaClone = true
+					}
+				}
+			}
+			ok = ok && viaClone
+		} else {
+			ok = ok && len(cp) == 1 && canonName(cp[0].Val) == "$0.Delimiter" && instrDominates(cp[0], sts[0])
+		}
 		r.Check(ok, "Timestamp.GetAndNextDelimiter", u.Pos(g.Pos()), "returns the current delimiter, then increments it", "GetAndNextDelimiter no longer returns a copy with the current delimiter and then increments it by one")
 	} else {
 		r.Lost("model.Timestamp.GetAndNextDelimiter")
